@@ -1171,3 +1171,39 @@ Proof.
   intros Hv. change (0 <= v < T N) in Hv. destruct (from_big_spec N v ltac:(lia)) as (l & E & Hl & V).
   exists l. rewrite Z.mod_small in V by lia. auto.
 Qed.
+
+(* decode, for sequences of arbitrary u64 words *)
+Lemma bfe_value_nonneg w : 0 <= w < 2 ^ 64 -> 0 <= bfe_value w < P.
+Proof. intros H. destruct (BFieldProofs.value_spec w H) as [_ C]. exact C. Qed.
+
+Theorem decode_spec_u64 N s : Forall (fun w => 0 <= w < 2 ^ 64) s ->
+  if (length s =? N)%nat && forallb (fun w => bfe_value w <=? U32_MAX) s
+  then u32s_decode N s = Done (map bfe_value s) /\ u32s_wf N (map bfe_value s)
+  else u32s_decode N s = Rej.
+Proof.
+  intros H. apply decode_spec. apply Forall_forall. intros w Hw.
+  pose proof (proj1 (Forall_forall _ _) H w Hw) as Hr. apply bfe_value_nonneg in Hr. lia.
+Qed.
+
+(* the encoding is unique: a canonical sequence that decodes to l is the encoding of l *)
+Theorem decode_unique N s l : Forall BFieldProofs.canon s -> u32s_decode N s = Done l -> s = u32s_encode l.
+Proof.
+  intros Hc Hd.
+  assert (H64 : Forall (fun w => 0 <= w < 2 ^ 64) s).
+  { apply Forall_forall. intros w Hw. pose proof (proj1 (Forall_forall _ _) Hc w Hw) as C.
+    unfold BFieldProofs.canon in C. change P with 18446744069414584321 in C. change (2 ^ 64) with 18446744073709551616. lia. }
+  pose proof (decode_spec_u64 N s H64) as D.
+  destruct ((length s =? N)%nat && forallb (fun w => bfe_value w <=? U32_MAX) s) eqn:E; [|rewrite D in Hd; discriminate].
+  destruct D as [D _]. rewrite D in Hd. injection Hd as <-.
+  apply andb_true_iff in E. destruct E as [_ Ef]. rewrite forallb_forall in Ef.
+  rewrite encode_is_to_bfes. unfold u32s_to_bfes. rewrite map_map.
+  clear D. induction s as [|w s IH]; [reflexivity|]. cbn [map].
+  inversion Hc as [|? ? Cw Cs]; inversion H64 as [|? ? Hw Hs]; subst.
+  rewrite <- IH by (auto; intros x Hx; apply Ef; right; exact Hx). f_equal.
+  pose proof (Ef w (or_introl eq_refl)) as Hle. apply Z.leb_le in Hle. unfold U32_MAX in Hle.
+  destruct (BFieldProofs.value_spec w Hw) as [Ev Cv].
+  assert (Hx : 0 <= bfe_value w < 2 ^ 64) by (unfold BFieldProofs.canon in Cv; change (2 ^ 64) with 18446744073709551616; lia).
+  destruct (BFieldProofs.new_spec (bfe_value w) Hx) as [Cn En].
+  apply BFieldProofs.repr_unique; auto. unfold bfe_from_u32. rewrite En, BFieldProofs.val_mont, <- Ev.
+  unfold BFieldProofs.canon in Cv. symmetry. apply Z.mod_small. lia.
+Qed.
